@@ -126,6 +126,8 @@ class ExprMixin:
 
     def map_num(self, v, f, frame, node):
         v = self.force(v, frame, node)
+        if isinstance(v, NoneV):
+            raise RaiseSignal("TypeError", "arithmetic on None", node, frame)
         if isinstance(v, Num):
             return Num(f(v.r))
         if isinstance(v, TupV):
@@ -148,6 +150,8 @@ class ExprMixin:
     def binop(self, op, l, r, frame, node):
         l = self.force(l, frame, node)
         r = self.force(r, frame, node)
+        if isinstance(l, NoneV) or isinstance(r, NoneV):
+            raise RaiseSignal("TypeError", "unsupported operand: None in arithmetic", node, frame)
         # strings
         if isinstance(l, (StrV, Opaque)) or isinstance(r, (StrV, Opaque)):
             if isinstance(op, (ast.Add, ast.Mod)) or (isinstance(op, ast.Div) and isinstance(l, Opaque)):
@@ -323,6 +327,9 @@ class ExprMixin:
                 return BoolV(res)
             if opn == "eq" and d.is_zero():
                 return BoolV(True)
+            kr = self.ctx.known_rel(opn, d)
+            if kr is not None:
+                return BoolV(kr)
             return BoolV(None, (opn, l.r, r.r))
         if isinstance(l, (Opaque,)) or isinstance(r, (Opaque,)):
             return BoolV(None, (opn, key_str(val_key(l)), key_str(val_key(r))))
@@ -598,8 +605,8 @@ class ExprMixin:
         return None
 
     # -- bound indices -------------------------------------------------------
-    def fresh_bound(self):
-        a = poly.T.sym("#b%d" % self.ctx.bound_depth, ("int", "nonneg", "bound"))
+    def fresh_bound(self, prefix="#b"):
+        a = poly.T.sym("%s%d" % (prefix, self.ctx.bound_depth), ("int", "nonneg", "bound"))
         self.ctx.bound_depth += 1
         return a
 
@@ -652,9 +659,9 @@ class ExprMixin:
             return ListV("opaque", path="filter(%s | %s)" % (key_str(val_key(base)), key_str(cond)), ty=ANY, filtered=(base, cond))
         return ListV("fam", idx=idx, lo=lo, hi=hi, elem=val)
 
-    def iter_family(self, it, frame, node):
+    def iter_family(self, it, frame, node, prefix="#b"):
         """(lo, hi, idx atom, element value at idx). Caller must release_bound()."""
-        idx = self.fresh_bound()
+        idx = self.fresh_bound(prefix)
         try:
             if isinstance(it, ListV) and it.kind == "range":
                 return it.lo, it.hi, idx, Num(Rat.atom(idx))
